@@ -2,6 +2,7 @@ package main
 
 import (
 	"bytes"
+	"crypto/sha1"
 	"crypto/sha256"
 	"fmt"
 	"math/big"
@@ -91,6 +92,7 @@ func hash160(b []byte) []byte {
 }
 
 func sha256b(b []byte) []byte { s := sha256.Sum256(b); return s[:] }
+func sha1sum(b []byte) []byte { s := sha1.Sum(b); return s[:] }
 
 func push(b []byte) []byte { return refscript.PushData(b) }
 func pushN(n int64) []byte { return refscript.PushInt(n) }
@@ -390,6 +392,14 @@ func (g *gctx) makeInner(kind string, witness bool) inner {
 			m = r.Intn(n + 1)
 			if r.Chance(1, 2) && m > 3 {
 				m = 1 + r.Intn(3)
+			}
+		}
+		if kind == "multisig-not" {
+			if n == 0 {
+				n = 1 + r.Intn(3)
+			}
+			if m == 0 {
+				m = 1
 			}
 		}
 		if g.m("multisig-m-gt-n") {
@@ -749,6 +759,9 @@ func (g *gctx) buildECDSA(wrapper, kind string) *spend {
 	}
 	tmpl := wrapper + "(" + kind + ")"
 	wantOK := g.mut == ""
+	if wrapper == "p2sh" && len(script) > refscript.MaxScriptElementSize {
+		wantOK = false // the redeem script cannot be pushed
+	}
 	var pk, scriptSig []byte
 	var wit [][]byte
 	switch wrapper {
